@@ -49,7 +49,20 @@ namespace cnl {
         [[nodiscard]] constexpr auto operator()(Lhs const& lhs, Rhs const& rhs) const
                 -> decltype(lhs / rhs)
         {
-            return (((lhs < 0) ^ (rhs < 0)) ? lhs - (rhs / 2) : lhs + (rhs / 2)) / rhs;
+            auto const quotient{lhs / rhs};
+            auto const remainder{lhs % rhs};
+            if (remainder == 0) {
+                return quotient;
+            }
+            // is |remainder| * 2 >= |rhs|? (formulated so that no intermediate value can overflow)
+            auto const round_away{
+                    (rhs < 0)
+                            ? ((remainder < 0) ? remainder <= rhs - remainder : remainder >= -(rhs + remainder))
+                            : ((remainder < 0) ? -remainder >= rhs + remainder : remainder >= rhs - remainder)};
+            using result_type = decltype(lhs / rhs);
+            return round_away ? (((lhs < 0) ^ (rhs < 0)) ? static_cast<result_type>(quotient - 1)
+                                                          : static_cast<result_type>(quotient + 1))
+                              : quotient;
         }
     };
 
